@@ -4,7 +4,7 @@ import copy
 from . import gen as G
 from . import monitors as M
 from . import build as B
-from .runner import rng_for, forward, Result, ns
+from .runner import rng_for, forward, resimulate, Result, ns
 
 _PAIRS = None
 _FIX = None
@@ -62,7 +62,10 @@ def make_case(prop, seed, i, tier):
     if rng.random() < FACILITY_RICH_SHARE.get(prop, 0.3):
         kw["facility_rich"] = True
     spec = G.gen_random(rng, G.profile(**kw))
-    return dict(prop=prop, i=i, source="random" + ("-frich" if kw.get("facility_rich") else ""), spec=spec)
+    # a share of the models is simulated twice on the same objects (the second run starts from the
+    # final state of the first one and must re-initialise everything)
+    resim = rng.random() < 0.2
+    return dict(prop=prop, i=i, source="random" + ("-frich" if kw.get("facility_rich") else "") + ("+resim" if resim else ""), spec=spec, resim=resim)
 
 
 def monitors_for(prop):
@@ -135,7 +138,13 @@ def run_case(case):
                     mech += ":assembly-split"
                 res.violate("C13", mech, "placement code raised %s: %s at %s" % (err["type"], err["msg"], err["where"]), stack=err["stack"])
         return res
-    M.check_status(tr, m.project, spec["sim"]["max_time"], None)
+    if case.get("resim"):
+        tr2, err2 = resimulate(m, spec, monitors_for(prop))
+        res.absorb(tr2, props=(prop,))
+        res.count("resimulated_runs")
+        if err2 is not None:
+            res["aborted"] = err2
+            return res
     res["nontrivial"] = bool(nontrivial(prop, spec, res["counters"], m.project))
     res["status"] = int(m.project.status)
     res["time"] = m.project.time
